@@ -12,6 +12,9 @@ UNITS = [
                   [dict(name="no_rounding_offset", where="body:disc_interpolate", rx=r" \+ 0\.5\)", repl=" + 1.5)")]),
 ]
 UNITS.append(D.wrapper_unit("c07_wrapper_forwarders"))
+UNITS.append(D.scalar_unit("c07_time_interpolate_alias", "h_c07_time_alias", ["TimeStateSpace::interpolate (output aliasing an input)"],
+                           [dict(name="output_used_as_scratch", where="body:time_interpolate", rx=r"state->position =\s*from->position \+ FMUL01\(\(double\)\(to->position - from->position\), t\);", repl="state->position = to->position - from->position; state->position = from->position + FMUL01(state->position, t);")]))
+
 SO3I_RULES = [(r"assert\(fabs\(norm\(static_cast<const StateType \*>\((?:from|to)\)\) - 1\.0\) < MAX_QUATERNION_NORM_ERROR\);", "", 0), (r"\barcLength\(", "ARCLEN(", 0),
               (r"std::numeric_limits<double>::epsilon\(\)", "DBL_EPSILON", 0), (r"1\.0 / sin\(theta\)", "RECIP_SIN(theta)", 0), (r"(?<![\w.])sin\(", "SIN_(", 0),
               (r"const auto \*(qs\d) = static_cast<const StateType \*>\((\w+)\);", r"const SO3State *\1 = \2;", 0), (r"auto \*qr = static_cast<StateType \*>\(state\);", "SO3State *qr = state;", 0),
